@@ -13,8 +13,8 @@ export GOFLAGS=-mod=mod GOPROXY=off GOSUMDB=off GOTOOLCHAIN=local
 PATCH="$SRC/$L.patch.diff"; DEMO="$SRC/$L.demo_test.go"
 [ -f "$PATCH" ] || { echo "no patch $PATCH"; exit 2; }
 hdr=$(head -1 "$DEMO" 2>/dev/null)
-ddir=$(echo "$hdr" | sed -n 's#^// *copy to \([^;]*\);.*#\1#p' | xargs)
-dcmd=$(echo "$hdr" | sed -n 's#.*run: *\(.*\)$#\1#p')
+ddir=$(echo "$hdr" | sed -n 's#^// *[Cc]opy to \([^;]*\);.*#\1#p' | awk '{print $1}')
+dcmd=$(echo "$hdr" | sed -n 's#.*run: *\(.*\)$#\1#p' | sed 's#  *(.*$##')
 WT=$(mktemp -d /var/tmp/seedwt.XXXXXX); CLEAN=$(mktemp -d /var/tmp/seedclean.XXXXXX)
 cleanup() { git -C /repo worktree remove --force "$WT" 2>/dev/null; git -C /repo worktree remove --force "$CLEAN" 2>/dev/null; rm -rf "$WT" "$CLEAN"; }
 trap cleanup EXIT
